@@ -1,4 +1,9 @@
 import RbV.Ref.SA
+import RbV.Ref.SAComplete
+import RbV.Ref.SAUnique
+import RbV.Model.Kasai
+import RbV.Model.Sus
+import RbV.Model.Transform
 /-!
 # C03 — suffix array = sorted permutation of all suffixes; LCP; shortest unique substrings
 
@@ -30,6 +35,23 @@ example : checkSA [36, 65, 36, 66, 36] [4, 0, 2, 1, 3] = true := by decide   -- 
 example : checkSA [36, 65, 36, 66, 36] [0, 4, 2, 1, 3] = false := by decide  -- … but the final sentinel must be least
 example : checkSA [65, 36, 65, 36] [3, 1, 0, 2] = false := by decide         -- one order for *all* comparisons
 
+/-- **Completeness of the acceptance function.**  If a non-empty text's array is a permutation sorted under
+*any* sentinel order (final sentinel least), it is accepted: the order read off the array is then order-isomorphic
+to the witness on the sentinel positions.  So `checkSA` never rejects an array on which the property holds. -/
+theorem checkSA_complete (t sa : List Nat) (hne : t ≠ [])
+    (h : ∃ B rk, SentinelOrder t B rk ∧
+      sa.Perm (List.range t.length) ∧
+      sa.Pairwise (fun i j => lexLt ((keyText t B rk).drop i) ((keyText t B rk).drop j))) :
+    checkSA t sa = true := by
+  obtain ⟨B, rk, ho, hp, hs⟩ := h
+  apply checkSA_complete_aux t sa hne
+  refine ⟨B, rk, ho, ?_, hs⟩
+  rw [length_keyText]; exact hp
+
+/-- acceptance is exactly the property (non-empty texts) -/
+theorem checkSA_iff (t sa : List Nat) (hne : t ≠ []) : checkSA t sa = true ↔ IsSA t sa :=
+  ⟨checkSA_isSA t sa, checkSA_complete_aux t sa hne⟩
+
 /-- Integer texts (and any fixed key text): accepted iff it is the sorted permutation of all suffixes. -/
 theorem checkSorted_iff_sorted (ks sa : List Nat) :
     checkSorted ks sa = true ↔
@@ -37,6 +59,25 @@ theorem checkSorted_iff_sorted (ks sa : List Nat) :
   checkSorted_iff ks sa
 
 example : checkSorted [3, 2, 2, 4, 4, 1, 2, 1, 0] [8, 7, 5, 6, 1, 2, 0, 4, 3] = true := by decide
+
+/-- **Mirror model of `transform_text` ties SA-IS to the property**: if an array is the sorted suffix permutation
+of the sentinel-aware rank transform of a text (what `Sais::construct` is asked to produce), then it satisfies the
+property for the byte text, under the sentinel order "a later sentinel occurrence is smaller". -/
+theorem transform_sorted_isSA (t sa : List Nat) (hne : t ≠ [])
+    (hmin : ∀ p, p < t.length → sentinelOf t ≤ t.getD p 0)
+    (hp : sa.Perm (List.range t.length))
+    (hs : sa.Pairwise (fun i j => lexLt ((Transform.transformText t).drop i) ((Transform.transformText t).drop j))) :
+    IsSA t sa :=
+  Transform.transform_sorted_isSA t sa hne hmin ⟨by rw [Transform.length_transformText]; exact hp, hs⟩
+
+example : Transform.transformText [65, 36, 67, 36, 65, 36] = [3, 2, 4, 1, 3, 0] := by decide
+
+/-- **The sorted suffix permutation is unique**: for a fixed key text (an integer text, or a byte text with a
+fixed sentinel order) two accepted arrays are equal — the property determines the result of `suffix_array_int`
+completely, and that of `suffix_array` up to the order chosen for the sentinel occurrences. -/
+theorem checkSorted_unique (ks sa sa' : List Nat) (h : checkSorted ks sa = true) (h' : checkSorted ks sa' = true) :
+    sa = sa' :=
+  suffixSorted_unique ks sa sa' ((checkSorted_iff ks sa).mp h) ((checkSorted_iff ks sa').mp h')
 
 /-- the order used is a strict total order on lists (so "sorted" determines the array when suffixes differ) -/
 theorem lexLt_strict_total (x y z : List Nat) :
@@ -60,6 +101,43 @@ theorem lcpRef_spec (t sa : List Nat) (hne : sa ≠ []) :
   ⟨length_lcpRef t sa hne, (lcpRef_ends t sa).1, (lcpRef_ends t sa).2, lcpRef_inner t sa⟩
 
 example : lcpRef [1, 2, 1, 2, 0] [4, 2, 0, 3, 1] = [-1, 0, 2, 0, 1, -1] := by decide
+
+/-- **Mirror model of `lcp()` (Kasai loop) refines the reference**: for every non-empty text and every
+permutation of its positions that is sorted in suffix order and starts with `n-1`, the loop (running `l`, decrement
+by one, `while` extension, `lcp.set(rank, l)`) returns `lcpRef t sa`. -/
+theorem kasai_eq_lcpRef (t sa : List Nat) (hn : 0 < t.length)
+    (hperm : sa.Perm (List.range t.length))
+    (hsorted : sa.Pairwise (fun i j => lexLt (t.drop i) (t.drop j)))
+    (hhead : sa.head? = some (t.length - 1)) :
+    Kasai.kasai t sa = lcpRef t sa :=
+  Kasai.kasai_eq_lcpRef t sa ⟨hperm, hsorted, hhead⟩ hn
+
+/-- … and its hypotheses hold for every accepted array of a text whose only sentinel is its last symbol -/
+theorem kasai_exact_of_checkSA (t sa : List Nat) (hc : checkSA t sa = true)
+    (hsingle : ∀ p, t[p]? = some (sentinelOf t) → p = t.length - 1)
+    (hmin : ∀ p, p < t.length → sentinelOf t ≤ t.getD p 0) :
+    Kasai.kasai t sa = lcpRef t sa := by
+  have hn : 0 < t.length := by
+    cases t with
+    | nil => simp [checkSA] at hc
+    | cons a l => simp
+  exact Kasai.kasai_eq_lcpRef t sa (Kasai.sorted_of_checkSA_single t sa hc hsingle hmin) hn
+
+example : Kasai.kasai [1, 2, 1, 2, 0] [4, 2, 0, 3, 1] = [-1, 0, 2, 0, 1, -1] := by decide
+
+/-- **Mirror model of `shortest_unique_substrings` refines the reference**: on a sorted suffix permutation
+(n ≥ 2, first entry n−1) and its LCP array, the loop `len = 1 + max(lcp[i], lcp[i+1]); if n − p ≥ len { sus[p] =
+Some(len) }` yields `susRef t p` at every position: the longest prefix a suffix shares with *any* other suffix is
+shared with one of its two neighbours in the array. -/
+theorem sus_model_eq (t sa : List Nat) (hn : 2 ≤ t.length)
+    (hperm : sa.Perm (List.range t.length))
+    (hsorted : sa.Pairwise (fun i j => lexLt (t.drop i) (t.drop j)))
+    (hhead : sa.head? = some (t.length - 1)) :
+    Sus.susModel sa (lcpRef t sa) = (List.range t.length).map (susRef t) :=
+  Sus.susModel_eq t sa ⟨hperm, hsorted, hhead⟩ hn
+
+example : Sus.susModel [7, 6, 3, 0, 4, 1, 5, 2] (lcpRef [71, 67, 84, 71, 67, 84, 65, 36] [7, 6, 3, 0, 4, 1, 5, 2])
+    = [some 4, some 3, some 2, some 4, some 3, some 2, some 1, some 1] := by decide
 
 /-- `susRef t p = some l`: the substring of length `l` starting at `p` lies inside the text, occurs nowhere
 else, and every shorter non-empty substring starting at `p` has another occurrence. -/
